@@ -10,7 +10,7 @@ from . import ref
 T0 = 1700000000
 TS_GRID = [T0, T0 + 1, T0 + 2, T0 + 255, T0 + 256, T0 + 65536]
 KINDS_REGULAR = [1, 2, 7, 255, 256, 257, 65535, 40000]
-TAG_VALUES = ["a", "ab", "abc", "b", "", "a\x00b", "é", "aÿ", "A", "a\x00z", "q" * 300]
+TAG_VALUES = ["a", "ab", "abc", "b", "", "a\x00b", "é", "aÿ", "A", "a\x00z", "q" * 300, "é" * 250]
 TAG_NAMES = ["e", "p", "t", "é"]
 
 HOSTILE = [
